@@ -88,15 +88,15 @@ Unc(rule)  == [ok |-> FALSE, unc |-> TRUE,  pre |-> FALSE, rule |-> rule, v |-> 
 (* ------------------------------------------------------------------------------------------ *)
 (* integer magnitudes: decimal strings in increasing order; TLC integers are 32 bit, so range     *)
 (* checks are rank comparisons                                                                  *)
-Mags == << "0", "1", "2", "2147483647", "2147483648", "2147483649", "4294967295", "4294967296",
+Mags == << "0", "1", "2", "5", "7", "2147483647", "2147483648", "2147483649", "4294967295", "4294967296",
            "9223372036854775807", "9223372036854775808", "18446744073709551615" >>
 Rank(s) == CHOOSE i \in 1..Len(Mags) : Mags[i] = s
-RMaxI32 == 4      \* 2^31 - 1
-RPow31  == 5      \* 2^31
-RMaxU32 == 7      \* 2^32 - 1
-RMaxI64 == 9      \* 2^63 - 1
-RPow63  == 10     \* 2^63
-RMaxU64 == 11     \* 2^64 - 1
+RMaxI32 == Rank("2147483647")              \* 2^31 - 1
+RPow31  == Rank("2147483648")              \* 2^31
+RMaxU32 == Rank("4294967295")              \* 2^32 - 1
+RMaxI64 == Rank("9223372036854775807")     \* 2^63 - 1
+RPow63  == Rank("9223372036854775808")     \* 2^63
+RMaxU64 == Rank("18446744073709551615")    \* 2^64 - 1
 
 S32 == {"int32", "sint32", "sfixed32"}
 S64 == {"int64", "sint64", "sfixed64"}
